@@ -125,14 +125,28 @@ func main() {
 				"ik": ev.Ints(args[2]), "ak": ev.Ints(args[3]), "akStar": ev.Ints(args[4]), "err": e3 != nil || pp != ""})
 		}
 
-		nchecks, nauts := 0, 0
+		nchecks, nauts, ngen := 0, 0, 0
 		gen := func(sqn []byte) []byte {
-			autn, gik, gck, gak, gres := make([]byte, 16), make([]byte, 16), make([]byte, 16), make([]byte, 6), make([]byte, 8)
-			var rl uint = 8
-			p := ev.Catch(func() { milenage.MilenageGenerate(opc, amf, k, sqn, rnd, autn, gik, gck, gak, gres, &rl) })
+			// the inputs lie in one subscriber record, each followed by other data (slices with spare capacity): nothing of the record may
+			// change; the RES buffer is 8, 12 or 16 octets long in turn (RES is its first 8 octets whatever room the caller left)
+			ngen++
+			record := []byte{}
+			var offs [5]int
+			for j, part := range [][]byte{opc, amf, k, sqn, rnd} {
+				offs[j] = len(record)
+				record = append(record, part...)
+				record = append(record, 0xe1, 0xe2, 0xe3, 0xe4, 0xe5, 0xe6, 0xe7, 0xe8, 0xe9, 0xea)
+			}
+			kept := append([]byte{}, record...)
+			sl := func(j, n int) []byte { return record[offs[j] : offs[j]+n] }
+			autn, gik, gck, gak, gres := make([]byte, 16), make([]byte, 16), make([]byte, 16), make([]byte, 6), make([]byte, []int{8, 12, 16}[ngen%3])
+			rl := uint(len(gres))
+			p := ev.Catch(func() {
+				milenage.MilenageGenerate(sl(0, len(opc)), sl(1, len(amf)), sl(2, len(k)), sl(3, len(sqn)), sl(4, len(rnd)), autn, gik, gck, gak, gres, &rl)
+			})
 			emit(ev.M{"ev": "Gen", "k": ev.Ints(k), "opc": ev.Ints(opc), "rand": ev.Ints(rnd), "sqn": ev.Ints(sqn), "amf": ev.Ints(amf),
-				"autn": ev.Ints(autn), "ik": ev.Ints(gik), "ck": ev.Ints(gck), "ak": ev.Ints(gak), "res": ev.Ints(gres),
-				"resLen": int(rl), "err": p != ""})
+				"autn": ev.Ints(autn), "ik": ev.Ints(gik), "ck": ev.Ints(gck), "ak": ev.Ints(gak), "res": ev.Ints(gres[:8]),
+				"resLen": int(rl), "err": p != "" || !bytes.Equal(record, kept)})
 			return autn
 		}
 		check := func(autn, sqnMs []byte, cls string) []byte {
